@@ -506,6 +506,26 @@ def sound_job(job):
     recs = []
     base = {"key": name, "keyt": kt, "scheme": scheme or "", "h": h or "", "slen": slen}
     if kt == "rsa-pss" and scheme == "PKCS1":
+        # an id-RSASSA-PSS key makes no PKCS#1 v1.5 signatures (RFC 4055 / RFC 8446 4.2.3): a well-formed one,
+        # computed here with plain modular exponentiation, must not verify under it - through either entry point,
+        # with and without the NULL parameters, for every hash
+        n_, d_ = int(key.n), int(key.d)
+        k_ = (n_.bit_length() + 7) // 8
+        pub = public_of(key)
+        msg = b"c10 pkcs1 under a pss key"
+        for di, tag in ((DI, ""), (DI_NONULL, "-nonull")):
+            if h not in di:
+                continue
+            dg = hashlib.new(h, msg).digest()
+            t = di[h] + dg
+            if k_ < len(t) + 11:
+                continue
+            em = b"\x00\x01" + b"\xff" * (k_ - len(t) - 3) + b"\x00" + t
+            sig = pow(int.from_bytes(em, "big"), d_, n_).to_bytes(k_, "big")
+            v1, e1 = call(pub.verify, bytearray(sig), bytearray(dg), "pkcs1", h)
+            recs.append(dict(base, kind="mutant", cls="pkcs1-signature-under-pss-key-verify" + tag, v=v1, exc=e1))
+            v2, e2 = call(pub.hashAndVerify, bytearray(sig), bytearray(msg), "PKCS1", h)
+            recs.append(dict(base, kind="mutant", cls="pkcs1-signature-under-pss-key-hashAndVerify" + tag, v=v2, exc=e2))
         return recs
     keyfile = os.path.join(w, "key.pem")
     open(keyfile, "w").write(key_pem(name))
@@ -1034,7 +1054,9 @@ def jobs_for(tier):
         for h in hs:
             jobs.append(("rsa", name, "pkcs1", h, tier, len(jobs)))
     for name in ("serverRSAPSSKey.pem",):
-        jobs.append(("rsa", name, "pkcs1", "sha256", tier, len(jobs)))      # a PSS-only key must not verify PKCS#1
+        for h in hs:
+            if h != "raw":
+                jobs.append(("rsa", name, "pkcs1", h, tier, len(jobs)))      # a PSS-only key must not verify PKCS#1
     for name in PSS_KEYS:
         for h in (("sha256", "sha384") if tier == "quick" else ("sha1", "sha256", "sha384", "sha512")):
             jobs.append(("rsa", name, "pss", h, tier, len(jobs)))
